@@ -6,7 +6,8 @@ import GqlModel.Ops.WireOps
         → `OK` | errors joined by `;`, each `<hex rule>,<hex message>,<line>:<col>|<line>:<col>…`
           | `PANIC,<hex>` | `OUTOFFUEL` | `UNKNOWN-RULE,<name>`
     links <sexp (schema querydoc)>     → canonical link dump (Annot.linkDump)
-    events <sexp (schema querydoc)>    → event kinds in walk order, comma separated
+    events <sexp (schema querydoc)>    → `kind@start` of every observer call in walk order, comma separated
+    validatelinks <rules> <sexp>       → `<validate reply> # <links reply> # <events reply>` (one decode)
 -/
 namespace Gql.Ops
 open Gql Gql.Validate
@@ -61,9 +62,9 @@ def opEvents (args : List String) : String :=
   | .ok (s, d) =>
     match walkDoc s.view d with
     | none => "OUTOFFUEL"
-    | some evs => ",".intercalate (evs.map fun e => e.p.kindName)
+    | some evs => ",".intercalate (evs.map Event.tag)
 
-/-- `validatelinks <rules> <sexp>` → `<validate reply> # <links reply>` (one decode for both) -/
+/-- `validatelinks <rules> <sexp>` → `<validate reply> # <links reply> # <events reply>` -/
 def opValidateLinks (args : List String) : String :=
   match args with
   | [] => "bad-args"
@@ -81,7 +82,7 @@ def opValidateLinks (args : List String) : String :=
             | .ok [] => "OK"
             | .ok errs => ";".intercalate (errs.map renderErr)
             | .error m => "PANIC," ++ toHexW m
-          v ++ " # " ++ linkDump evs
+          v ++ " # " ++ linkDump evs ++ " # " ++ ",".intercalate (evs.map Event.tag)
 
 def validateOps : List (String × (List String → String)) :=
   [("validate", opValidate), ("links", opLinks), ("events", opEvents), ("validatelinks", opValidateLinks)]
